@@ -36,6 +36,12 @@ func init() {
 
 const kvBucket = "vb"
 
+// padding writes of big transactions (unobserved bucket)
+const (
+	padBucket = "vbpad"
+	padCount  = 1800
+)
+
 // amount concretisation variants (C02): every abstract amount is multiplied by amtScale; outputs may
 // carry a leading zero byte (non-canonical but equal big-endian encoding)
 var (
@@ -297,6 +303,16 @@ func (s *xsim) tx(name string) (*pb.Transaction, error) {
 			tx.TxOutputsExt = append(tx.TxOutputsExt, &protos.TxOutputExt{Bucket: kvBucket, Key: []byte(k), Value: []byte(v)})
 			prog = append(prog, fx.VOp{"put", kvBucket, k, v})
 		}
+	}
+	if c.Big {
+		// a big transaction also writes padCount keys of an unobserved bucket, so that the state effects of its block
+		// exceed 100 KB (a block's effects and its pointer move are ONE storage write however big the block)
+		for i := 0; i < padCount; i++ {
+			k := []byte(fmt.Sprintf("%s-%04d", name, i))
+			tx.TxInputsExt = append(tx.TxInputsExt, &protos.TxInputExt{Bucket: padBucket, Key: k})
+			tx.TxOutputsExt = append(tx.TxOutputsExt, &protos.TxOutputExt{Bucket: padBucket, Key: k, Value: []byte("x")})
+		}
+		prog = append(prog, fx.VOp{"pad", padBucket, name, strconv.Itoa(padCount)})
 	}
 	if len(prog) > 0 {
 		pj, _ := json.Marshal(prog)
